@@ -1224,7 +1224,62 @@ func processLocalState(r *core.Run, rule string, funcs []*ssa.Function) {
 			}
 		})
 	}
-	r.Ok(rule, "scope:no-process-local-state", "", fmt.Sprintf("%d stores/map updates examined in %d functions: none targets a package-level variable or memory held in a Keeper field", n, len(funcs)))
+	// read side: a package-level variable that any function other than a package initialiser can write (a setter
+	// called from app wiring, a flag parsed from the node's configuration) is node-local configuration; a consensus
+	// path whose behaviour — store reads billed to the transaction's gas meter, events, results — depends on it differs
+	// between nodes that are configured differently. Variables written only by package initialisers are constants in
+	// all but name (codecs, key tables, compiled regular expressions).
+	globalRoot := func(v ssa.Value) *ssa.Global {
+		for i := 0; i < 8 && v != nil; i++ {
+			switch x := v.(type) {
+			case *ssa.Global:
+				return x
+			case *ssa.FieldAddr:
+				v = x.X
+			case *ssa.IndexAddr:
+				v = x.X
+			default:
+				return nil
+			}
+		}
+		return nil
+	}
+	mutable := map[*ssa.Global]string{}
+	for _, fn := range p.Funcs {
+		if fn.Name() == "init" || strings.HasPrefix(fn.Name(), "init#") || (fn.Parent() != nil && (fn.Parent().Name() == "init" || strings.HasPrefix(fn.Parent().Name(), "init#"))) {
+			continue
+		}
+		allInstrs(fn, func(in ssa.Instruction) {
+			if st, ok := in.(*ssa.Store); ok {
+				if g := globalRoot(st.Addr); g != nil && g.Pkg != nil && strings.HasPrefix(g.Pkg.Pkg.Path(), core.ModPath) {
+					if _, seen := mutable[g]; !seen {
+						mutable[g] = core.FnName(fn) + " at " + p.InstrPos(st)
+					}
+				}
+			}
+		})
+	}
+	nReads := 0
+	for _, fn := range funcs {
+		if fn.Name() == "init" || strings.HasPrefix(fn.Name(), "New") || fn.Synthetic != "" {
+			continue
+		}
+		allInstrs(fn, func(in ssa.Instruction) {
+			ld, ok := in.(*ssa.UnOp)
+			if !ok || ld.Op != token.MUL {
+				return
+			}
+			g := globalRoot(ld.X)
+			if g == nil || g.Pkg == nil || !strings.HasPrefix(g.Pkg.Pkg.Path(), core.ModPath) {
+				return
+			}
+			nReads++
+			if w, isMut := mutable[g]; isMut {
+				r.Violation(rule, core.FnName(fn)+":reads-mutable-global:"+g.Name(), p.InstrPos(ld), "a consensus path reads the package-level variable "+g.Name()+", which is written outside package initialisation ("+w+"): node-local configuration decides what the path does (store reads billed to the gas meter, results, events), so nodes configured differently diverge")
+			}
+		})
+	}
+	r.Ok(rule, "scope:no-process-local-state", "", fmt.Sprintf("%d stores/map updates examined in %d functions: none targets a package-level variable or memory held in a Keeper field; %d reads of package-level variables, none of a variable written outside package initialisation (%d such variables exist in the module)", n, len(funcs), nReads, len(mutable)))
 }
 
 // gettersFaithful: every store getter of the module (a function recognised as "reads the record under the key built
